@@ -29,7 +29,7 @@ type C14Case struct {
 	Ser    bool       `json:"ser"`
 }
 
-var c14Outcomes = []string{"ok", "ok", "herr", "cancel", "deadline", "reset", "openfail"}
+var c14Outcomes = []string{"ok", "ok", "herr", "cancel", "cancel-unread", "deadline", "reset", "openfail"}
 
 func genC14(t *rapid.T) C14Case {
 	c := C14Case{Ser: rapid.Bool().Draw(t, "ser")}
@@ -42,6 +42,9 @@ func genC14(t *rapid.T) C14Case {
 			x := C14RPC{Kind: rapid.SampledFrom(allKinds).Draw(t, "kind"), Outcome: rapid.SampledFrom(c14Outcomes).Draw(t, "outcome"), Msgs: rapid.IntRange(0, 3).Draw(t, "msgs")}
 			if x.Kind == kit.KindUnary && (x.Outcome == "reset" || x.Outcome == "openfail") {
 				x.Outcome = "herr"
+			}
+			if x.Outcome == "cancel-unread" && x.Kind != kit.KindServer && x.Kind != kit.KindBidi {
+				x.Outcome = "cancel"
 			}
 			round = append(round, x)
 		}
@@ -109,6 +112,9 @@ func execC14(t *testing.T, c C14Case) (v Verdict) {
 					return status.Error(codes.Aborted, "no")
 				case "early": // returns at once; the caller's later bodies are answered by resets
 					return status.Error(codes.Unavailable, "early")
+				case "sendwait": // one response the caller will not read, then wait like "wait"
+					_ = kit.SendBytes(s, []byte("unread"))
+					fallthrough
 				default: // wait: consume whatever arrives until the context ends
 					// (a handler that ignores queued requests while it waits is the documented
 					// head-of-line blocking, and would also stop the bubble's virtual clock:
@@ -123,7 +129,7 @@ func execC14(t *testing.T, c C14Case) (v Verdict) {
 				}
 			}
 		}
-		for _, m := range []string{"ok", "herr", "early", "wait"} {
+		for _, m := range []string{"ok", "herr", "early", "wait", "sendwait"} {
 			svc.Stream("s-"+m, true, true, streamH(m))
 		}
 		w := kit.NewWorld(kit.Topo{Kind: "direct", Serialize: c.Ser, Clients: 1}, svc, nil, nil)
@@ -167,7 +173,7 @@ func execC14(t *testing.T, c C14Case) (v Verdict) {
 						_, _ = kit.Invoke(ctx, cc, name, []byte("x"))
 						return
 					}
-					name := map[string]string{"ok": "s-ok", "herr": "s-herr", "cancel": "s-wait", "deadline": "s-wait", "reset": "s-early", "openfail": "s-ok"}[x.Outcome]
+					name := map[string]string{"ok": "s-ok", "herr": "s-herr", "cancel": "s-wait", "cancel-unread": "s-sendwait", "deadline": "s-wait", "reset": "s-early", "openfail": "s-ok"}[x.Outcome]
 					if x.Outcome == "openfail" {
 						ctx = metadataOutgoing(ctx, "failopen", "1")
 					}
@@ -184,6 +190,11 @@ func execC14(t *testing.T, c C14Case) (v Verdict) {
 						}
 					}
 					switch x.Outcome {
+					case "cancel-unread":
+						// virtual time only moves once everything is parked: by then the handler's message
+						// has reached the client and sits unread in the stream's read loop
+						time.Sleep(time.Millisecond)
+						cancel()
 					case "cancel":
 						cancel()
 					case "deadline":
